@@ -330,7 +330,7 @@ def corpus_cases(pid):
 
 
 def write_replay(pid, part, sig, spec, detail, seed, tag=""):
-    d = os.path.join(env.VERIF, "replays")
+    d = os.environ.get("VERIF_REPLAY_DIR") or os.path.join(env.VERIF, "replays")
     os.makedirs(d, exist_ok=True)
     safe = "".join(c if c.isalnum() else "_" for c in sig)[:60]
     path = os.path.join(d, "%s-%s-%s%s.json" % (pid, safe, seed, tag))
@@ -418,7 +418,7 @@ def run_check(pid, tier, seed, only_part=None):
         replays.append((sig, write_replay(pid, v["part"], sig, spec, detail, seed), detail))
 
     # 3b. keep one example per inconclusive reason for diagnosis (git-ignored)
-    incd = os.path.join(env.VERIF, "replays", "inconclusive")
+    incd = os.path.join(os.environ.get("VERIF_REPLAY_DIR") or os.path.join(env.VERIF, "replays"), "inconclusive")
     os.makedirs(incd, exist_ok=True)
     for reason, ex in d["inc_examples"].items():
         safe = "".join(c if c.isalnum() else "_" for c in reason)[:60]
@@ -454,8 +454,9 @@ def run_check(pid, tier, seed, only_part=None):
         "wall_s": round(time.time() - t0, 2),
         "violations": len(new),
     }
-    os.makedirs(os.path.join(env.VERIF, "evidence"), exist_ok=True)
-    evp = os.path.join(env.VERIF, "evidence", pid + ".json")
+    evdir = os.environ.get("VERIF_EVIDENCE_DIR") or os.path.join(env.VERIF, "evidence")
+    os.makedirs(evdir, exist_ok=True)
+    evp = os.path.join(evdir, pid + ".json")
     with open(evp, "w") as f:
         json.dump(ev, f, indent=1, sort_keys=True, default=str)
     validate_evidence(evp)
